@@ -174,15 +174,17 @@ func (c *conn) sread() (f *Frag, err error) {
 		return f, nil
 	}
 
+	// a frag that is already done (its request was completed by an error of a sibling frag or
+	// by a timeout) may point at a recycled Msg: nothing must be done with its reply, redirects included
+	if f.Done {
+		logging.Warnf("[%dm|%df][%dc|%ds] frag already done, req: %s, res: %s", f.MsgId(), f.Id, f.OwnerFd(), c.fd, f.ReqString(), f.RspBodyString())
+		return nil, codec.Continue
+	}
+
 	switch f.Type {
 	case codec.RspMoved, codec.RspAsk:
 		logging.Warnf("[%dm|%df][%dc|%ds] got res: %s", f.MsgId(), f.Id, f.OwnerFd(), c.fd, f.RspBodyString())
 		return f, codec.MovedOrAsk
-	}
-
-	if f.Done {
-		logging.Warnf("[%dm|%df][%dc|%ds] frag already done, req: %s, res: %s", f.MsgId(), f.Id, f.OwnerFd(), c.fd, f.ReqString(), f.RspBodyString())
-		return nil, codec.Continue
 	}
 
 	f.slowLogCheck(c)
